@@ -10,7 +10,7 @@ EXTENDS MsgPackFormat, MsgPackCorpus
 VARIABLES v, w, cut
 
 Init == /\ v \in Corpus
-        /\ w \in 0..4
+        /\ w \in 0..5
         /\ cut = Len(Enc(v, w))
 
 Next == /\ cut > 0
